@@ -7,9 +7,9 @@ export CARGO_TARGET_DIR=$wt/target CARGO_NET_OFFLINE=true
 cd $wt || exit 2
 git checkout -q -- . ; rm -f sylvia/tests/seeded_demo$n.rs
 cp $out/demo$n.rs sylvia/tests/seeded_demo$n.rs
-cargo test -p sylvia --test seeded_demo$n --offline > $out/confirm_demo${n}_without.log 2>&1 && dw=pass || dw=fail
+cargo test -p sylvia --features mt --test seeded_demo$n --offline > $out/confirm_demo${n}_without.log 2>&1 && dw=pass || dw=fail
 git apply $out/patch$n.diff || { echo "APPLY FAILED"; exit 2; }
-cargo test -p sylvia --test seeded_demo$n --offline > $out/confirm_demo${n}_with.log 2>&1 && dp=pass || dp=fail
+cargo test -p sylvia --features mt --test seeded_demo$n --offline > $out/confirm_demo${n}_with.log 2>&1 && dp=pass || dp=fail
 rm -f sylvia/tests/seeded_demo$n.rs
 cargo test --workspace --no-fail-fast --offline > $out/confirm_suite${n}_with.log 2>&1 && sp=pass || sp=fail
 git checkout -q -- .
